@@ -700,14 +700,12 @@ class FluidMixture(object):
         # Get the total moles of each molecule (both phases together)
         n_tot = self.moles(m)
         
-        # Get the total number of moles in gas phase using the first 
-        # non-zero component in the mixture (note that this is independent of 
-        # which component you pick):
-        idx = 0
-        while idx < (len(m) - 1) and m[idx] <= 0.:
-            idx += 1
-        ng = np.abs((n_tot[idx] - (xi[1,idx] * np.sum(n_tot))) / 
-            (xi[0,idx]-xi[1,idx]))
+        # Get the total number of moles in gas phase from the gas mole 
+        # fraction returned by the flash calculation.  (Recovering it from 
+        # the material balance of a single component divides by the 
+        # difference of its gas and liquid mole fractions, which vanishes 
+        # when that component's partition coefficient is one.)
+        ng = beta * np.sum(n_tot)
         
         # Get the moles of each component in gas (line 1) and liquid (line 2) 
         # phase
